@@ -197,6 +197,18 @@ def gen_output_card(rng):
             npts = rng.randint(3, 18)
         pts = cards.gen_points(rng, pools, name, npts, th, plant=big) if npts else []
         obs.append([name, pts])
+    if (not nnlo) and (not big) and rng.random() < 0.006:
+        # huge: one observable with more than 256 points (leading order, three-node grid)
+        th["PTO"] = 0
+        th.pop("PTODIS", None)
+        th["TMC"] = 0
+        ob["interpolation_xgrid"] = list(cards.HUGE_GRID)
+        ob["interpolation_is_log"] = rng.choice([True, False])
+        ob["interpolation_polynomial_degree"] = 1
+        hname = rng.choice(["F2_light", "F2_total", "F2", "FL_light", "XSHERANC" if ob["prDIS"] != "CC" else "XSHERACC"])
+        obs = [[hname, cards.huge_points(rng, rng.randint(257, 300), cards.is_xs(hname))]]
+        if rng.random() < 0.5:
+            obs.append(["F3_light", cards.huge_points(rng, 2)])
     card = {"theory": th, "obs": ob, "observables": obs}
     sfs = [o for o in obs if not cards.is_xs(o[0])]
     if len(sfs) >= 2 and rng.random() < 0.35:
